@@ -520,6 +520,10 @@ class Manager:
                 )
                 self.removeHandler(_on_done_handler, '%s_done' % event_name)
                 self.removeHandler(_on_tick_handler, 'generate_events')
+                if not state.run:
+                    # the awaited event was never seen: stop looking for it
+                    self.removeHandler(_on_event_handler, event_name)
+                    state.run = True
             elif state.timeout > 0:
                 state.timeout -= 1
 
